@@ -1,0 +1,25 @@
+//go:build verif
+
+package transmit
+
+import "github.com/honeycombio/refinery/types"
+
+// VerifC26Pending returns the number of events currently waiting in the per-destination batches.
+func (d *DirectTransmission) VerifC26Pending() int {
+	d.batchMutex.RLock()
+	defer d.batchMutex.RUnlock()
+	n := 0
+	for _, b := range d.eventBatches {
+		b.mutex.Lock()
+		n += len(b.events)
+		b.mutex.Unlock()
+	}
+	return n
+}
+
+// VerifC26PackedSize returns the number of bytes sendBatch appends for this event.
+func VerifC26PackedSize(ev *types.Event) (int, error) {
+	pe := batchedEvent{time: ev.Timestamp, sampleRate: int64(ev.SampleRate), data: ev.Data}
+	b, err := pe.MarshalMsg(nil)
+	return len(b), err
+}
